@@ -47,6 +47,27 @@ def build_by_route(d, starts, route):
             for l, w in nb.items():
                 od[v].setdefault(w, []).append(l)
         return fsa.FSA(od, list(starts), graph_dict=False)
+    if route == "parallel_edges_added":
+        # for every pair of states joined by several labels the constructor gets the first label only; the parallel edges are
+        # added afterwards (both dictionary formats of the constructor in turn)
+        first, later, seen = {v: {} for v in d}, [], set()
+        for v, nb in d.items():
+            for l, w in nb.items():
+                if (v, w) in seen:
+                    later.append((v, w, l))
+                else:
+                    seen.add((v, w)); first[v][l] = w
+        if len(later) % 2:
+            od = {v: {} for v in first}
+            for v, nb in first.items():
+                for l, w in nb.items():
+                    od[v].setdefault(w, []).append(l)
+            F = fsa.FSA(od, list(starts), graph_dict=False)
+        else:
+            F = fsa.FSA(copy.deepcopy(first), list(starts))
+        for e in later:
+            F.add_edges([e])
+        return F
     if route == "copy_of_edited":
         F = fsa.FSA(copy.deepcopy(d), list(starts))
         F.add_vertices(["__tmp__"])
@@ -59,7 +80,7 @@ def build_by_route(d, starts, route):
     raise ValueError(route)
 
 
-ROUTES = ["graph_dict", "implicit_sinks_then_edges", "incremental", "out_dict", "copy_of_edited"]
+ROUTES = ["graph_dict", "implicit_sinks_then_edges", "incremental", "out_dict", "copy_of_edited", "parallel_edges_added"]
 
 
 def check_automaton(rep, d, starts, labels, L, inp, multiples=(1, 2, 3), full=True, route="graph_dict"):
@@ -197,7 +218,7 @@ def small_automata(tier, rng, rep):
     if tier != 'thorough':
         three = [three[i] for i in rng.choice(len(three), size=250, replace=False)]
     cases += [(d, 3) for d in three]
-    rep.rule = "every graph_dict on <=2 states over {a,b}, three-state ones exhaustive (thorough) / 250 sampled (quick); start states 0 and a non-zero state; the automaton is obtained through 5 construction routes in turn (complete dictionary, implicit sinks then added edges, incremental, target->labels dictionary, deep copy of an edited automaton); non-trivial = >= 2 edges"
+    rep.rule = "every graph_dict on <=2 states over {a,b}, three-state ones exhaustive (thorough) / 250 sampled (quick); start states 0 and a non-zero state; the automaton is obtained through 6 construction routes in turn (complete dictionary, implicit sinks then added edges, incremental, target->labels dictionary, deep copy of an edited automaton, parallel edges added after construction); non-trivial = >= 2 edges"
     rep.bound = f"{len(cases)} automata, words up to length 4"
     rep.exhaustive = tier == 'thorough'
     for ci, (d, n) in enumerate(cases):
